@@ -906,12 +906,6 @@ var c18SysWriters = map[string]bool{
 }
 var c18Open = map[string]bool{"Login": true, "OpenSession": true, "Health": true, "ServerInfo": true}
 
-func b01(b bool) string {
-	if b {
-		return "1"
-	}
-	return "0"
-}
 
 func (e *c18Env) invoke(p c18Rpc, cr *c18Cred, req proto.Message) (resp proto.Message, err error) {
 	ctx, cancel := cr.ctx()
